@@ -3310,6 +3310,27 @@ static Boolean QualifyQuote_Z80(char const* pStart, char const* pQuotePos) {
         && (as_toupper(*(pQuotePos - 1)) == 'F')) {
         return False;
     }
+
+    /* Z380: EX r,r' / EX rr,rr' name every register of the alternate bank this way */
+
+    if ((*pQuotePos == '\'') && (MomCPU >= CPUZ380)) {
+        static char const* const Regs[]
+                = {"BC", "DE", "HL", "IX", "IY", "A", "B", "C", "D", "E", "H", "L", NULL};
+        char const* const* pReg;
+        char               Next = pQuotePos[1];
+
+        if ((Next == '\0') || as_isspace(Next) || (Next == ',') || (Next == ';')) {
+            for (pReg = Regs; *pReg; pReg++) {
+                size_t l = strlen(*pReg);
+
+                if ((pQuotePos >= pStart + l) && !as_strncasecmp(pQuotePos - l, *pReg, l)
+                    && ((pQuotePos - l == pStart) || as_isspace(pQuotePos[-(int)l - 1])
+                        || (pQuotePos[-(int)l - 1] == ','))) {
+                    return False;
+                }
+            }
+        }
+    }
     return True;
 }
 
